@@ -100,6 +100,34 @@ def main():
                    "broker timestamp -1 or given; log_start_offset absent or given; plain and gzip; every future checked against the "
                    "position of its own record in the bytes built",
           "failures": fails, "replay": {"script": REPLAY}})
+    n, fails = produce_pairing()
+    emit({"name": "produce-reply-decoded-with-the-requests-own-version", "exhaustive": True, "cases": n, "distinct_nontrivial": n,
+          "bound": "every ProduceRequest struct version: RESPONSE_TYPE has the request's API key and the schema of the "
+                   "response class of the same version (the fields a send() result is read from: offset, timestamp)",
+          "failures": fails, "replay": {"script": REPLAY_PAIRING}})
+
+
+def produce_pairing():
+    """'true coordinates': the offset and timestamp of a result are read from the ProduceResponse, which is decoded with the
+    class the request struct names - it has to be the response of the request's own version"""
+    import contextlib, io
+    from bounded import C11 as B
+    reqs, structs, resps = B.all_structs()
+    structs = [s for s in structs if s.__module__.endswith(".produce")]
+    buf = io.StringIO()
+    with contextlib.redirect_stdout(buf):
+        B.enum_pairing(structs, resps)
+    d = json.loads(buf.getvalue().split("BOUNDED ", 1)[1])
+    return d["cases"], d["failures"]
+
+
+REPLAY_PAIRING = '''
+import sys
+sys.path.insert(0, "/verif")
+from bounded import C02
+n, fails = C02.produce_pairing()
+VIOLATED = bool(fails); DETAIL = "%d of %d ProduceRequest versions have their reply decoded with another version's schema: %r" % (len(fails), n, fails[:2])
+'''
 
 
 REPLAY = '''
